@@ -8,6 +8,8 @@ Clause "cursor moves first child / next sibling are consistent with the single o
   `ts_tree_cursor_goto_first_child` succeeds exactly when the node has a visible child and then
   shows (subtree, alias) = the FIRST element of `enumChildren` (= first child in `flatten`),
   descending through hidden nodes by their cached `visible_child_count`.
+* `cursor_last_child_spec` — mirror image for `ts_tree_cursor_goto_last_child`: the LAST element of
+  `enumChildren` (`lastRel`, `lastGo_spec`, `enumKids_last`).
 * `cursor_next_sibling_spec` — for every well-formed cursor stack (`StackOK`), the port of
   `ts_tree_cursor_goto_next_sibling` succeeds exactly when `laterSiblings` is non-empty and then
   shows its first element.  `laterSiblings` is the list of visible nodes that follow the current
@@ -23,11 +25,21 @@ Clause "cursor moves first child / next sibling are consistent with the single o
 * `cursor_field_spec` — the port of `ts_tree_cursor_current_field_id` = `chainField (stackChain …)`,
   the stack-side construction of the `fields` chain `flattenKids` records (innermost level with a
   field wins; extras and the cursor's root have none).
+* `gotoChild_preserves_inv`, `sibling_internal_preserves_inv`, `gotoNextSibling_preserves_inv` —
+  `CursorInv` (root index 0; every entry is the child of the one below at its raw index, with the
+  structural index `siAfter` and the descendant index `base + descBefore` of the forward iterator) is
+  an invariant of goto_first_child / goto_last_child / goto_next_sibling; `cursorInv_idx`,
+  `cursorInv_linked`: it implies the hypotheses `IdxOK` and the linkage of `StackOK`.
+* `descendant_index_spec` — under `CursorInv` and the summaries, the reported descendant index =
+  index of the entry below (+1 if that is a visible node) + number of visible nodes, counted by
+  enumeration (`preCount`/`countDesc`), in the subtrees of the earlier raw siblings: the preorder
+  position among the visible nodes of the cursor's root.
 * supporting: `iterNext_some/none` (the forward iterator step in closed form), `firstGo_spec`,
   `scanSiblings_eq`, `enumKids_head`, `sibling_internal_spec`.
 
 Together with `child_spec` these give: a walk by goto_first_child / goto_next_sibling visits the
-children of a node in the order of `enumChildren`.  OPEN: goto_previous_sibling/last_child (mirror image, for the repaired iterator), goto_descendant,
+children of a node in the order of `enumChildren`.  OPEN: goto_previous_sibling (mirror image of next sibling for the repaired iterator),
+goto_descendant (descent by descendant index),
 parent_spec / next_sibling_spec / prev_sibling_spec for the position-based node.c searches
 (false on the unchanged code for zero-width nodes: would be `_partial`).
 -/
@@ -818,6 +830,592 @@ theorem cursor_field_spec (lang : Lang) (c : Cursor) :
     cases r with
     | nil => simp [stackChain, chainField]
     | cons p rest => simp
+
+end TsVerif.C06
+
+namespace TsVerif.C06
+
+/-- The LAST raw child (of the remaining ones) the cursor would stop at. -/
+def lastRel (lang : Lang) (pid : Nat) : List Tree → Nat → Option (Tree × Nat × Bool)
+  | [], _ => none
+  | c :: rest, si =>
+    match lastRel lang pid rest (if c.data.extra then si else si + 1) with
+    | some r => some r
+    | none =>
+      if c.data.visible || (!c.data.extra && lang.aliasAt pid si != 0) then some (c, si, true)
+      else if vcc c > 0 then some (c, si, false)
+      else none
+
+def bestOf : Step × Option Entry → Option (Tree × Nat × Bool)
+  | (.visible, some e) => some (e.t, e.si, true)
+  | (.hidden, some e) => some (e.t, e.si, false)
+  | _ => none
+
+theorem nextIter_parent (lang : Lang) (it : Iter) (c : Tree) : (nextIter lang it c).parent = it.parent := rfl
+theorem nextIter_childIndex (lang : Lang) (it : Iter) (c : Tree) : (nextIter lang it c).childIndex = it.childIndex + 1 := rfl
+theorem nextIter_si (lang : Lang) (it : Iter) (c : Tree) : (nextIter lang it c).si = (if c.data.extra then it.si else it.si + 1) := rfl
+
+/-- `lastChildInternal`'s scan: the last stop among the remaining children, else what it had. -/
+theorem lastGo_spec (lang : Lang) : ∀ (fuel : Nat) (it : Iter) (best : Step × Option Entry), it.valid = true →
+    it.parent.kids.length - it.childIndex < fuel →
+    bestOf (lastChildInternal.go lang fuel it best) =
+      (match lastRel lang it.parent.data.productionId (it.parent.kids.drop it.childIndex) it.si with
+       | some r => some r
+       | none => bestOf best)
+  | 0, it, _, _, hf => by omega
+  | fuel + 1, it, best, hv, hf => by
+    unfold lastChildInternal.go
+    cases hc : it.parent.kids[it.childIndex]? with
+    | none =>
+      rw [iterNext_none lang it hc, drop_eq_nil_of_none _ _ hc]
+      simp [lastRel]
+    | some c =>
+      rw [iterNext_some lang it c hv hc, drop_eq_cons _ _ _ hc]
+      have hlt := lt_of_getElem?_some _ _ _ hc
+      simp only [lastRel]
+      have ih := fun b => lastGo_spec lang fuel (nextIter lang it c) b (by simp [nextIter, hv]) (by simp only [nextIter]; omega)
+      simp only [nextIter_parent, nextIter_childIndex, nextIter_si] at ih
+      by_cases hvis : (c.data.visible || (!c.data.extra && lang.aliasAt it.parent.data.productionId it.si != 0)) = true
+      · simp only [visOf, hvis, if_true, entryOf]
+        rw [ih]
+        cases lastRel lang it.parent.data.productionId (it.parent.kids.drop (it.childIndex + 1)) (if c.data.extra then it.si else it.si + 1) <;> simp [bestOf]
+      · have hvis' : (c.data.visible || (!c.data.extra && lang.aliasAt it.parent.data.productionId it.si != 0)) = false := by simpa using hvis
+        simp only [visOf, hvis', Bool.false_eq_true, if_false, entryOf]
+        by_cases hk : vcc c > 0
+        · simp only [hk, if_true]
+          rw [ih]
+          cases lastRel lang it.parent.data.productionId (it.parent.kids.drop (it.childIndex + 1)) (if c.data.extra then it.si else it.si + 1) <;> simp [bestOf]
+        · simp only [hk, if_false]
+          rw [ih]
+          cases lastRel lang it.parent.data.productionId (it.parent.kids.drop (it.childIndex + 1)) (if c.data.extra then it.si else it.si + 1) <;> simp
+
+
+theorem lastRel_mem (lang : Lang) (pid : Nat) : ∀ (kids : List Tree) (si : Nat) (c : Tree) (si' : Nat) (b : Bool),
+    lastRel lang pid kids si = some (c, si', b) → c ∈ kids
+  | [], _, _, _, _, h => by simp [lastRel] at h
+  | x :: rest, si, c, si', b, h => by
+    unfold lastRel at h
+    cases hr : lastRel lang pid rest (if x.data.extra then si else si + 1) with
+    | some r =>
+      rw [hr] at h
+      simp only [Option.some.injEq] at h
+      subst h
+      exact List.mem_cons_of_mem _ (lastRel_mem lang pid rest _ c si' b hr)
+    | none =>
+      rw [hr] at h
+      simp only at h
+      split at h
+      · simp only [Option.some.injEq, Prod.mk.injEq] at h; simp [h.1]
+      · split at h
+        · simp only [Option.some.injEq, Prod.mk.injEq] at h; simp [h.1]
+        · simp at h
+
+theorem lastRel_false_vcc (lang : Lang) (pid : Nat) : ∀ (kids : List Tree) (si : Nat) (c : Tree) (si' : Nat),
+    lastRel lang pid kids si = some (c, si', false) → vcc c > 0
+  | [], _, _, _, h => by simp [lastRel] at h
+  | x :: rest, si, c, si', h => by
+    unfold lastRel at h
+    cases hr : lastRel lang pid rest (if x.data.extra then si else si + 1) with
+    | some r =>
+      rw [hr] at h
+      simp only [Option.some.injEq] at h
+      subst h
+      exact lastRel_false_vcc lang pid rest _ c si' hr
+    | none =>
+      rw [hr] at h
+      simp only at h
+      split at h
+      · simp at h
+      · split at h
+        · simp only [Option.some.injEq, Prod.mk.injEq] at h
+          rw [← h.1]; assumption
+        · simp at h
+
+theorem getLast?_append_of_some {α : Type} (a b : List α) (x : α) (h : b.getLast? = some x) : (a ++ b).getLast? = some x := by
+  cases b with
+  | nil => simp at h
+  | cons y ys => rw [List.getLast?_append]; simp [h]
+
+/-- Last element of the enumeration of visible children in terms of `lastRel`. -/
+theorem enumKids_last (lang : Lang) : ∀ (kids : List Tree) (pid si : Nat) (ps : Option Nat),
+    SummarizedL lang kids → shapeOKL ps kids = true →
+    (enumKids lang pid kids si).getLast? =
+      match lastRel lang pid kids si with
+      | none => none
+      | some (c, si', true) => some (c, if c.data.extra then 0 else lang.aliasAt pid si')
+      | some (c, _, false) => (enumChildren lang c).getLast?
+  | [], _, _, _, _, _ => by simp [enumKids, lastRel]
+  | c :: rest, pid, si, ps, hs, hsh => by
+    unfold SummarizedL at hs
+    unfold shapeOKL at hsh
+    simp only [Bool.and_eq_true] at hsh
+    have ih := enumKids_last lang rest pid (if c.data.extra then si else si + 1) ps hs.2 hsh.2
+    unfold enumKids lastRel
+    have hcond : (c.data.visible || (if c.data.extra then 0 else lang.aliasAt pid si) != 0) =
+        (c.data.visible || (!c.data.extra && lang.aliasAt pid si != 0)) := by
+      by_cases hx : c.data.extra = true <;> simp [hx]
+    simp only [hcond]
+    cases hr : lastRel lang pid rest (if c.data.extra then si else si + 1) with
+    | some r =>
+      rw [hr] at ih
+      obtain ⟨c', si', b⟩ := r
+      simp only
+      cases b with
+      | true =>
+        simp only at ih ⊢
+        exact getLast?_append_of_some _ _ _ ih
+      | false =>
+        simp only at ih ⊢
+        have hv := lastRel_false_vcc lang pid rest _ c' si' hr
+        have hm := lastRel_mem lang pid rest _ c' si' false hr
+        have hcnt := (summarize_counts lang c' ps (summarized_of_mem lang rest c' hs.2 hm) (shapeOK_of_mem rest ps c' hsh.2 hm)).1
+        cases hl : (enumChildren lang c').getLast? with
+        | none =>
+          have : enumChildren lang c' = [] := List.getLast?_eq_none_iff.mp hl
+          rw [this] at hcnt
+          unfold vcc at hv
+          split at hv
+          · omega
+          · simp at hcnt; omega
+        | some x =>
+          rw [hl] at ih
+          exact getLast?_append_of_some _ _ _ ih
+    | none =>
+      rw [hr] at ih
+      simp only at ih ⊢
+      have hnil : enumKids lang pid rest (if c.data.extra then si else si + 1) = [] := List.getLast?_eq_none_iff.mp ih
+      rw [hnil, List.append_nil]
+      by_cases hvis : (c.data.visible || (!c.data.extra && lang.aliasAt pid si != 0)) = true
+      · simp [hvis]
+      · have hvis' : (c.data.visible || (!c.data.extra && lang.aliasAt pid si != 0)) = false := by simpa using hvis
+        simp only [hvis', Bool.false_eq_true, if_false]
+        have hcnt := (summarize_counts lang c ps hs.1 hsh.1).1
+        by_cases hk : vcc c > 0
+        · simp [hk]
+        · simp only [hk, if_false]
+          have hnil2 : enumChildren lang c = [] := by
+            unfold vcc at hk
+            split at hk
+            · obtain ⟨cd, ck⟩ := c
+              simp only [Tree.kids] at *
+              have : ck = [] := by simpa using ‹ck.isEmpty = true›
+              subst this
+              simp [enumChildren, enumKids]
+            · have : c.data.visibleChildCount = 0 := by omega
+              rw [this] at hcnt
+              exact List.eq_nil_of_length_eq_zero hcnt.symm
+          simp [hnil2]
+
+
+theorem bestOf_some (step : Step) (eo : Option Entry) (c : Tree) (si : Nat) (b : Bool)
+    (h : bestOf (step, eo) = some (c, si, b)) :
+    ∃ e, eo = some e ∧ e.t = c ∧ e.si = si ∧ step = (if b then Step.visible else Step.hidden) := by
+  cases step <;> cases eo <;> simp only [bestOf] at h <;> try (cases h)
+  · exact ⟨_, rfl, rfl, rfl, rfl⟩
+  · exact ⟨_, rfl, rfl, rfl, rfl⟩
+
+/-- `cursor_last_child_spec`: the port of `ts_tree_cursor_goto_last_child` succeeds exactly when the
+node has a visible child and then shows the LAST element of `enumChildren`. -/
+theorem cursor_last_child_spec (lang : Lang) : ∀ (fuel : Nat) (top : Entry) (rest : List Entry) (ps : Option Nat),
+    Summarized lang top.t → shapeOK ps top.t = true → top.t.size ≤ fuel →
+    ((gotoChild lang true fuel (top :: rest)).1 = true →
+        topNode lang (gotoChild lang true fuel (top :: rest)).2 = (enumChildren lang top.t).getLast?) ∧
+    ((gotoChild lang true fuel (top :: rest)).1 = false → enumChildren lang top.t = [])
+  | 0, top, _, _, _, _, hsz => by
+    have := tree_size_pos top.t
+    omega
+  | fuel + 1, top, rest, ps, hs, hsh, hsz => by
+    obtain ⟨t, id, pos, ci, si0, di⟩ := top
+    obtain ⟨d, kids⟩ := t
+    simp only at hs hsh hsz ⊢
+    unfold Summarized at hs
+    unfold shapeOK at hsh
+    simp only [Bool.and_eq_true] at hsh
+    unfold gotoChild
+    simp only [if_true]
+    unfold lastChildInternal iterateChildren
+    cases hk : kids with
+    | nil =>
+      simp [kids_mk, lastChildInternal.go, iterNext, enumChildren, enumKids]
+    | cons k0 krest =>
+      have hkne : (Tree.mk d (k0 :: krest)).kids.isEmpty = false := by simp [kids_mk]
+      simp only [hkne, Bool.false_eq_true, if_false]
+      rw [← hk]
+      simp only [kids_mk]
+      have hgo := lastGo_spec lang (kids.length + 1)
+        { valid := true, parent := Tree.mk d kids, pos := pos, childIndex := 0, si := 0
+          descIdx := di + (if isEntryVisible lang { t := Tree.mk d kids, id := id, pos := pos, childIndex := ci, si := si0, descIdx := di } rest.head? then 1 else 0) }
+        (Step.none, none) rfl (by simp [kids_mk])
+      simp only [kids_mk, data_mk, List.drop_zero, bestOf] at hgo
+      have hlast := enumKids_last lang kids d.productionId 0 (some d.symbol) hs.2.2 hsh.2
+      unfold enumChildren
+      generalize hr : lastChildInternal.go lang (kids.length + 1) _ _ = r at hgo
+      obtain ⟨step, eo⟩ := r
+      cases hf : lastRel lang d.productionId kids 0 with
+      | none =>
+        rw [hf] at hgo hlast
+        simp only at hgo hlast
+        have hnil := List.getLast?_eq_none_iff.mp hlast
+        cases step <;> cases eo <;> simp [bestOf] at hgo <;> simp [hnil]
+      | some trip =>
+        obtain ⟨c, si', b⟩ := trip
+        rw [hf] at hgo hlast
+        simp only at hgo
+        obtain ⟨e, heo, h1, h2, hstep⟩ := bestOf_some step eo c si' b hgo
+        subst heo
+        cases b with
+        | false =>
+          simp only [Bool.false_eq_true, if_false] at hstep
+          subst hstep
+          simp only at hlast ⊢
+          have hmem := lastRel_mem lang d.productionId kids 0 c si' false hf
+          have hsc := summarized_of_mem lang kids c hs.2.2 hmem
+          have hshc := shapeOK_of_mem kids (some d.symbol) c hsh.2 hmem
+          have hszc : e.t.size ≤ fuel := by
+            rw [h1]
+            have := sizeList_mem kids c hmem
+            unfold Tree.size at hsz
+            omega
+          have ih := cursor_last_child_spec lang fuel e
+            ({ t := Tree.mk d kids, id := id, pos := pos, childIndex := ci, si := si0, descIdx := di } :: rest)
+            (some d.symbol) (by rw [h1]; exact hsc) (by rw [h1]; exact hshc) hszc
+          rw [h1] at ih
+          rw [hlast]
+          refine ⟨ih.1, ?_⟩
+          intro hfalse
+          have hnil := ih.2 hfalse
+          exfalso
+          have hcnt := (summarize_counts lang c (some d.symbol) hsc hshc).1
+          rw [hnil] at hcnt
+          have : vcc c > 0 := lastRel_false_vcc lang d.productionId kids 0 c si' hf
+          unfold vcc at this
+          split at this
+          · omega
+          · simp at hcnt; omega
+        | true =>
+          simp only [if_true] at hstep
+          subst hstep
+          simp only at hlast ⊢
+          simp only [topNode, data_mk]
+          rw [hlast, h1, h2]
+          refine ⟨fun _ => rfl, fun h => ?_⟩
+          simp at h
+
+end TsVerif.C06
+
+namespace TsVerif.C06
+
+/-- Visible nodes contained in the raw children `kids` (each child's visible descendants, plus the
+child itself when visible or aliased), structural index threaded from `si`: what
+`ts_tree_cursor_child_iterator_next` adds to `descendant_index` while passing them. -/
+def descBefore (lang : Lang) (pid : Nat) : List Tree → Nat → Nat
+  | [], _ => 0
+  | c :: rest, si =>
+    (vdc c + (if (c.data.visible || (!c.data.extra && lang.aliasAt pid si != 0)) then 1 else 0)) +
+      descBefore lang pid rest (if c.data.extra then si else si + 1)
+
+theorem siAfter_append : ∀ (a b : List Tree) (si : Nat), siAfter (a ++ b) si = siAfter b (siAfter a si)
+  | [], _, _ => rfl
+  | c :: a, b, si => by simp only [List.cons_append, siAfter]; exact siAfter_append a b _
+
+theorem descBefore_append (lang : Lang) (pid : Nat) : ∀ (a b : List Tree) (si : Nat),
+    descBefore lang pid (a ++ b) si = descBefore lang pid a si + descBefore lang pid b (siAfter a si)
+  | [], _, _ => by simp [descBefore, siAfter]
+  | c :: a, b, si => by
+    simp only [List.cons_append, descBefore, siAfter]
+    rw [descBefore_append lang pid a b]
+    omega
+
+theorem take_succ_of_getElem? {α : Type} (l : List α) (i : Nat) (c : α) (h : l[i]? = some c) :
+    l.take (i + 1) = l.take i ++ [c] := by
+  rw [List.take_succ, h]; rfl
+
+/-- The invariant of a child iterator over the children of `parent`, started with descendant
+index `base`: structural index and descendant index are those of the child at `childIndex`. -/
+def IterOK (lang : Lang) (base : Nat) (it : Iter) : Prop :=
+  it.valid = true ∧
+  it.si = siAfter (it.parent.kids.take it.childIndex) 0 ∧
+  it.descIdx = base + descBefore lang it.parent.data.productionId (it.parent.kids.take it.childIndex) 0
+
+/-- The invariant of an entry produced by such an iterator. -/
+def EntryOK (lang : Lang) (parent : Tree) (base : Nat) (e : Entry) : Prop :=
+  parent.kids[e.childIndex]? = some e.t ∧
+  e.si = siAfter (parent.kids.take e.childIndex) 0 ∧
+  e.descIdx = base + descBefore lang parent.data.productionId (parent.kids.take e.childIndex) 0
+
+theorem nextIter_ok (lang : Lang) (base : Nat) (it : Iter) (c : Tree) (h : IterOK lang base it)
+    (hc : it.parent.kids[it.childIndex]? = some c) : IterOK lang base (nextIter lang it c) := by
+  obtain ⟨hv, hsi, hd⟩ := h
+  refine ⟨by simp [nextIter, hv], ?_, ?_⟩
+  · simp only [nextIter_si, nextIter_parent, nextIter_childIndex]
+    rw [take_succ_of_getElem? _ _ _ hc, siAfter_append, ← hsi]
+    simp [siAfter]
+  · simp only [nextIter, nextIter_parent]
+    rw [take_succ_of_getElem? _ _ _ hc, descBefore_append, ← hsi, hd]
+    simp only [descBefore]
+    omega
+
+theorem entryOf_ok (lang : Lang) (base : Nat) (it : Iter) (c : Tree) (h : IterOK lang base it)
+    (hc : it.parent.kids[it.childIndex]? = some c) : EntryOK lang it.parent base (entryOf it c) := by
+  obtain ⟨_, hsi, hd⟩ := h
+  exact ⟨hc, hsi, hd⟩
+
+/-- Every entry the forward scans return satisfies the entry invariant. -/
+theorem firstGo_entry_ok (lang : Lang) (base : Nat) : ∀ (fuel : Nat) (it : Iter), IterOK lang base it →
+    ∀ e, (firstChildInternal.go lang fuel it).2 = some e → EntryOK lang it.parent base e
+  | 0, _, _, e, h => by simp [firstChildInternal.go] at h
+  | fuel + 1, it, hok, e, h => by
+    unfold firstChildInternal.go at h
+    cases hc : it.parent.kids[it.childIndex]? with
+    | none => rw [iterNext_none lang it hc] at h; simp at h
+    | some c =>
+      rw [iterNext_some lang it c hok.1 hc] at h
+      simp only at h
+      split at h
+      · simp only [Option.some.injEq] at h; rw [← h]; exact entryOf_ok lang base it c hok hc
+      · split at h
+        · simp only [Option.some.injEq] at h; rw [← h]; exact entryOf_ok lang base it c hok hc
+        · have := firstGo_entry_ok lang base fuel (nextIter lang it c) (nextIter_ok lang base it c hok hc) e h
+          simpa [nextIter_parent] using this
+
+theorem lastGo_entry_ok (lang : Lang) (base : Nat) : ∀ (fuel : Nat) (it : Iter) (best : Step × Option Entry),
+    IterOK lang base it → (∀ e, best.2 = some e → EntryOK lang it.parent base e) →
+    ∀ e, (lastChildInternal.go lang fuel it best).2 = some e → EntryOK lang it.parent base e
+  | 0, _, best, _, hb, e, h => by simp only [lastChildInternal.go] at h; exact hb e h
+  | fuel + 1, it, best, hok, hb, e, h => by
+    unfold lastChildInternal.go at h
+    cases hc : it.parent.kids[it.childIndex]? with
+    | none => rw [iterNext_none lang it hc] at h; exact hb e h
+    | some c =>
+      rw [iterNext_some lang it c hok.1 hc] at h
+      simp only at h
+      have hn := nextIter_ok lang base it c hok hc
+      have he := entryOf_ok lang base it c hok hc
+      split at h
+      · have := lastGo_entry_ok lang base fuel (nextIter lang it c) _ hn
+          (by intro e' he'; simp only [Option.some.injEq] at he'; rw [← he']; simpa [nextIter_parent] using he) e h
+        simpa [nextIter_parent] using this
+      · split at h
+        · have := lastGo_entry_ok lang base fuel (nextIter lang it c) _ hn
+            (by intro e' he'; simp only [Option.some.injEq] at he'; rw [← he']; simpa [nextIter_parent] using he) e h
+          simpa [nextIter_parent] using this
+        · have := lastGo_entry_ok lang base fuel (nextIter lang it c) best hn
+            (by intro e' he'; simpa [nextIter_parent] using hb e' he') e h
+          simpa [nextIter_parent] using this
+
+
+/-- The invariant of a whole cursor stack: the root entry has descendant index 0, and every other
+entry is the child of the entry below it at its recorded raw index, with the structural index and
+the descendant index the forward iterator would give it. -/
+def CursorInv (lang : Lang) : List Entry → Prop
+  | [] => False
+  | [root] => root.descIdx = 0
+  | e :: p :: rest =>
+    EntryOK lang p.t (p.descIdx + (if isEntryVisible lang p rest.head? then 1 else 0)) e ∧ CursorInv lang (p :: rest)
+
+theorem iterateChildren_ok (lang : Lang) (top : Entry) (p? : Option Entry) (hne : top.t.kids.isEmpty = false) :
+    IterOK lang (top.descIdx + (if isEntryVisible lang top p? then 1 else 0)) (iterateChildren lang top p?) := by
+  unfold iterateChildren IterOK
+  simp [hne, siAfter, descBefore]
+
+theorem iterateChildren_parent (lang : Lang) (top : Entry) (p? : Option Entry) :
+    (iterateChildren lang top p?).parent = top.t := by
+  unfold iterateChildren
+  split <;> rfl
+
+theorem iterateChildren_invalid (lang : Lang) (top : Entry) (p? : Option Entry) (he : top.t.kids.isEmpty = true) :
+    iterNext lang (iterateChildren lang top p?) = none := by
+  unfold iterateChildren iterNext
+  simp [he]
+
+/-- `gotoChild_preserves_inv`: `goto_first_child` / `goto_last_child` keep the stack invariant. -/
+theorem gotoChild_preserves_inv (lang : Lang) (last : Bool) : ∀ (fuel : Nat) (stack : List Entry),
+    CursorInv lang stack → CursorInv lang (gotoChild lang last fuel stack).2
+  | 0, stack, h => by simpa [gotoChild] using h
+  | fuel + 1, [], h => by simpa [gotoChild] using h
+  | fuel + 1, top :: rest, h => by
+    unfold gotoChild
+    simp only
+    by_cases hempty : top.t.kids.isEmpty = true
+    · -- no children: both scans return nothing
+      have hnone := iterateChildren_invalid lang top rest.head? hempty
+      cases last with
+      | true =>
+        have : lastChildInternal lang top rest.head? = (Step.none, none) := by
+          unfold lastChildInternal lastChildInternal.go
+          rw [hnone]
+        simp [this, h]
+      | false =>
+        have : firstChildInternal lang top rest.head? = (Step.none, none) := by
+          unfold firstChildInternal firstChildInternal.go
+          rw [hnone]
+        simp [this, h]
+    · have hne : top.t.kids.isEmpty = false := by simpa using hempty
+      have hit := iterateChildren_ok lang top rest.head? hne
+      have hpar := iterateChildren_parent lang top rest.head?
+      -- the entry either scan returns is OK for `top`
+      have hentry : ∀ e, (if last then lastChildInternal lang top rest.head? else firstChildInternal lang top rest.head?).2 = some e →
+          EntryOK lang top.t (top.descIdx + (if isEntryVisible lang top rest.head? then 1 else 0)) e := by
+        intro e he
+        cases last with
+        | true =>
+          simp only [if_true] at he
+          unfold lastChildInternal at he
+          have := lastGo_entry_ok lang _ _ _ (Step.none, none) hit (by intro e' h'; simp at h') e he
+          rwa [hpar] at this
+        | false =>
+          simp only [Bool.false_eq_true, if_false] at he
+          unfold firstChildInternal at he
+          have := firstGo_entry_ok lang _ _ _ hit e he
+          rwa [hpar] at this
+      generalize hr : (if last then lastChildInternal lang top rest.head? else firstChildInternal lang top rest.head?) = r at hentry
+      obtain ⟨step, eo⟩ := r
+      cases step <;> cases eo <;> simp only <;> try exact h
+      · rename_i e
+        apply gotoChild_preserves_inv lang last fuel
+        exact ⟨hentry e rfl, h⟩
+      · rename_i e
+        exact ⟨hentry e rfl, h⟩
+
+
+theorem sibling_internal_preserves_inv (lang : Lang) (initialSize : Nat) : ∀ (stack : List Entry),
+    CursorInv lang stack →
+    (gotoSiblingInternal lang (iterNext lang) initialSize stack).1 ≠ Step.none →
+    CursorInv lang (gotoSiblingInternal lang (iterNext lang) initialSize stack).2
+  | [], h, _ => by simp [CursorInv] at h
+  | [e], _, hne => by simp [gotoSiblingInternal] at hne
+  | entry :: parent :: rest, h, hne => by
+    obtain ⟨hent, hrest⟩ := h
+    obtain ⟨hchild, hsi, hd⟩ := hent
+    have hkne : parent.t.kids.isEmpty = false := by
+      cases hk : parent.t.kids with
+      | nil => rw [hk] at hchild; simp at hchild
+      | cons a b => rfl
+    have hit0 := iterateChildren_ok lang parent rest.head? hkne
+    have hpar := iterateChildren_parent lang parent rest.head?
+    -- the iterator repositioned on `entry`
+    have hit : IterOK lang (parent.descIdx + (if isEntryVisible lang parent rest.head? then 1 else 0))
+        { valid := (iterateChildren lang parent rest.head?).valid, parent := (iterateChildren lang parent rest.head?).parent, pos := entry.pos, childIndex := entry.childIndex, si := entry.si, descIdx := entry.descIdx } := by
+      refine ⟨hit0.1, ?_, ?_⟩
+      · simp only [hpar]; exact hsi
+      · simp only [hpar]; exact hd
+    have hc' : ({ valid := (iterateChildren lang parent rest.head?).valid, parent := (iterateChildren lang parent rest.head?).parent, pos := entry.pos, childIndex := entry.childIndex, si := entry.si, descIdx := entry.descIdx } : Iter).parent.kids[({ valid := (iterateChildren lang parent rest.head?).valid, parent := (iterateChildren lang parent rest.head?).parent, pos := entry.pos, childIndex := entry.childIndex, si := entry.si, descIdx := entry.descIdx } : Iter).childIndex]? = some entry.t := by
+      simp only [hpar]; exact hchild
+    have hpar' : ({ valid := (iterateChildren lang parent rest.head?).valid, parent := (iterateChildren lang parent rest.head?).parent, pos := entry.pos, childIndex := entry.childIndex, si := entry.si, descIdx := entry.descIdx } : Iter).parent = parent.t := hpar
+    unfold gotoSiblingInternal at hne ⊢
+    dsimp only at hne ⊢
+    generalize ({ valid := (iterateChildren lang parent rest.head?).valid, parent := (iterateChildren lang parent rest.head?).parent, pos := entry.pos, childIndex := entry.childIndex, si := entry.si, descIdx := entry.descIdx } : Iter) = itx at hit hc' hpar' hne ⊢
+    rw [iterNext_some lang itx entry.t hit.1 hc'] at hne ⊢
+    dsimp only at hne ⊢
+    by_cases hbr : (visOf lang itx entry.t && decide ((parent :: rest).length + 1 < initialSize)) = true
+    · rw [if_pos hbr] at hne; exact absurd rfl hne
+    · rw [if_neg hbr] at hne ⊢
+      rw [scanSiblings_eq] at hne ⊢
+      have hn := nextIter_ok lang _ itx entry.t hit hc'
+      have hentry := firstGo_entry_ok lang _ (parent.t.kids.length + 2) _ hn
+      simp only [nextIter_parent, hpar'] at hentry
+      generalize firstChildInternal.go lang (parent.t.kids.length + 2) (nextIter lang itx entry.t) = r at hentry hne ⊢
+      obtain ⟨step, eo⟩ := r
+      cases step <;> cases eo
+      all_goals first
+        | exact sibling_internal_preserves_inv lang initialSize (parent :: rest) hrest hne
+        | exact ⟨hentry _ rfl, hrest⟩
+
+/-- `gotoNextSibling_preserves_inv`: `goto_next_sibling` keeps the stack invariant (a failed move
+leaves the cursor unchanged). -/
+theorem gotoNextSibling_preserves_inv (lang : Lang) (c : Cursor) (h : CursorInv lang c.stack) :
+    CursorInv lang (gotoNextSibling lang c).2.stack := by
+  unfold gotoNextSibling
+  have hs := sibling_internal_preserves_inv lang c.stack.length c.stack h
+  generalize hr : gotoSiblingInternal lang (iterNext lang) c.stack.length c.stack = r at hs
+  obtain ⟨step, st⟩ := r
+  cases step with
+  | none => simpa using h
+  | visible => simpa using hs (by simp)
+  | hidden =>
+    simp only
+    exact gotoChild_preserves_inv lang false _ st (hs (by simp))
+
+/-- The invariant gives the hypotheses of the walk theorems: linkage and structural indices. -/
+theorem cursorInv_idx (lang : Lang) : ∀ (stack : List Entry), CursorInv lang stack → IdxOK stack
+  | [], h => by simp [CursorInv] at h
+  | [_], _ => by simp [IdxOK]
+  | e :: p :: rest, h => by
+    unfold IdxOK
+    exact ⟨h.1.2.1, cursorInv_idx lang (p :: rest) h.2⟩
+
+theorem cursorInv_linked (lang : Lang) : ∀ (stack : List Entry), CursorInv lang stack →
+    match stack with
+    | e :: p :: _ => p.t.kids[e.childIndex]? = some e.t
+    | _ => True
+  | [], _ => trivial
+  | [_], _ => trivial
+  | e :: p :: rest, h => h.1.1
+
+/-- Number of visible nodes in the subtrees of the raw children `kids`, counted by enumeration. -/
+def preCount (lang : Lang) (pid : Nat) : List Tree → Nat → Nat
+  | [], _ => 0
+  | c :: rest, si =>
+    (countDesc lang c + (if (c.data.visible || (!c.data.extra && lang.aliasAt pid si != 0)) then 1 else 0)) +
+      preCount lang pid rest (if c.data.extra then si else si + 1)
+
+theorem descBefore_eq_preCount (lang : Lang) (pid : Nat) : ∀ (kids : List Tree) (si : Nat) (ps : Option Nat),
+    SummarizedL lang kids → shapeOKL ps kids = true → descBefore lang pid kids si = preCount lang pid kids si
+  | [], _, _, _, _ => rfl
+  | c :: rest, si, ps, hs, hsh => by
+    unfold SummarizedL at hs
+    unfold shapeOKL at hsh
+    simp only [Bool.and_eq_true] at hsh
+    simp only [descBefore, preCount]
+    rw [descBefore_eq_preCount lang pid rest _ ps hs.2 hsh.2]
+    have hcnt := (summarize_counts lang c ps hs.1 hsh.1).2.2
+    have hv : vdc c = countDesc lang c := by
+      unfold vdc
+      split
+      · obtain ⟨cd, ck⟩ := c
+        simp only [Tree.kids] at *
+        have : ck = [] := by simpa using ‹ck.isEmpty = true›
+        subst this
+        simp [countDesc, countDescKids]
+      · exact hcnt
+    rw [hv]
+
+theorem summarizedL_take (lang : Lang) : ∀ (kids : List Tree) (n : Nat), SummarizedL lang kids → SummarizedL lang (kids.take n)
+  | [], n, h => by simpa using h
+  | x :: rest, 0, _ => by simp [SummarizedL]
+  | x :: rest, n + 1, h => by
+    unfold SummarizedL at h
+    simp only [List.take_succ_cons, SummarizedL]
+    exact ⟨h.1, summarizedL_take lang rest n h.2⟩
+
+theorem shapeOKL_take : ∀ (kids : List Tree) (ps : Option Nat) (n : Nat), shapeOKL ps kids = true → shapeOKL ps (kids.take n) = true
+  | [], ps, n, h => by simpa using h
+  | x :: rest, ps, 0, _ => by simp [shapeOKL]
+  | x :: rest, ps, n + 1, h => by
+    unfold shapeOKL at h
+    simp only [Bool.and_eq_true] at h
+    simp only [List.take_succ_cons, shapeOKL, Bool.and_eq_true]
+    exact ⟨h.1, shapeOKL_take rest ps n h.2⟩
+
+/-- `descendant_index_spec`: under the stack invariant and the summaries, the descendant index the
+cursor reports for an entry is the descendant index of the entry below it, plus one if that entry
+is a visible node, plus the number of visible nodes (counted by enumeration) in the subtrees of the
+raw siblings before it — i.e. its preorder position among the visible nodes of the cursor's root. -/
+theorem descendant_index_spec (lang : Lang) (e p : Entry) (rest : List Entry) (ps : Option Nat)
+    (h : CursorInv lang (e :: p :: rest)) (hs : Summarized lang p.t) (hsh : shapeOK ps p.t = true) :
+    e.descIdx = p.descIdx + (if isEntryVisible lang p rest.head? then 1 else 0) +
+      preCount lang p.t.data.productionId (p.t.kids.take e.childIndex) 0 := by
+  obtain ⟨⟨_, _, hd⟩, _⟩ := h
+  rw [hd]
+  cases hp : p.t with
+  | mk pd pk =>
+    rw [hp] at hs hsh
+    unfold Summarized at hs
+    unfold shapeOK at hsh
+    simp only [Bool.and_eq_true] at hsh
+    simp only [kids_mk, data_mk]
+    rw [descBefore_eq_preCount lang pd.productionId (pk.take e.childIndex) 0 (some pd.symbol)
+      (summarizedL_take lang pk _ hs.2.2) (shapeOKL_take pk _ _ hsh.2)]
 
 end TsVerif.C06
 
